@@ -201,8 +201,7 @@ Tr_C12_rowcount(A, B) ==
 
 (* ------------------------------- C15 ------------------------------------ *)
 Tr_C15_flag(A, B) ==
-    \A t \in Ended(A, B) : (~IsIngestTask(t) /\ Extra(t) > 0 /\ RawRuntime(t[1], t[2], B.tasks[t].m) > 0)
-                           => B.tasks[t].flag
+    \A t \in Ended(A, B) : (~IsIngestTask(t) /\ Extra(t) > 0) => B.tasks[t].flag
 Inv_C15_reported(X) ==
     \A o \in ObsNames : X.obs[o].planned =>
       \A k \in Nodes(o) \ X.obs[o].remaining :
